@@ -169,6 +169,10 @@ Spec == Init /\ [][Next]_vars
 \* ---- design-level invariants
 TrialsNow == {c \in Callers : st[c] = "running" /\ trial[c] = epoch}
 HalfBound == state = "half" => hoAdm <= (IF cfg.perm > 1 THEN cfg.perm ELSE 1) /\ Cardinality(TrialsNow) <= hoAdm   \* C09
+\* no wedge (C09's repair): the trial slots in use are covered by trials still running plus successes counted in this
+\* period (a success of a call admitted before the breaker opened counts too), so a half-open breaker whose trials
+\* were all cancelled (or panicked) admits again
+NoWedge == state = "half" => hoAdm <= Cardinality(TrialsNow) + hoSucc
 OpenHasEmptyHalfOpenCounters == state # "half" => hoSucc = 0
 WindowBounded == cfg.wt = "count" => Len(win) <= cfg.N
 \* C03 at design level: an admission never leaves a state that is open and still within its wait
